@@ -6,9 +6,10 @@ import (
 	"fmt"
 	"os"
 	"sort"
+	"strconv"
 	"strings"
+	"sync"
 
-	corev1 "k8s.io/api/core/v1"
 	kruntime "k8s.io/apimachinery/pkg/runtime"
 
 	istiolog "istio.io/istio/pkg/log"
@@ -17,6 +18,9 @@ import (
 )
 
 func main() {
+	if len(os.Args) > 1 && os.Args[1] == "repro" {
+		os.Exit(runRepro(os.Args[2:]))
+	}
 	vh.Main(vh.Prop{
 		ID:    "C15",
 		Level: "exploration",
@@ -26,24 +30,40 @@ func main() {
 			"EndpointSlice controller with several slices per service and address moves; nodes with topology labels; namespaces) ending " +
 			"in a settled state. An arrival order is a linear extension of the per-object sequences (+ IP hand-over edges) drawn by a " +
 			"biased strategy, with replays; its tier (true-order / kind-streams / per-object) is measured. The real kube controller " +
-			"processes the order one op at a time (sentinel barrier after each op); its services, endpoint shards and per-pod proxy " +
-			"views are compared with a controller cold-started on the final objects and with the true order of the same history. " +
-			"Plus hand-written directed orders, one per repair mechanism. Non-trivial = the order exercises at least one measured hard " +
-			"shape and the final state has at least one service; distinct = distinct op sequence.",
+			"processes the order one op at a time (sentinel barrier after each op); its services, endpoint shards (addresses, ports, " +
+			"health, labels, service account, locality, network), shard service-account sets, network gateways and per-pod proxy views " +
+			"are compared with a controller cold-started on the final objects and with the true order of the same history; unequal after " +
+			"two more barrier rounds => violation. The cold start's endpoint membership (address, port name, target port per service) " +
+			"is additionally compared with a reference computed from the final EndpointSlices/Pods by their documented meaning alone " +
+			"(catches a conversion that is wrong whatever the order). The key of a violation is the datum class, unless a ledger of the arrival order " +
+			"(ledger.go, explain.go) recognises a root cause: the live value is exactly what the inputs at the endpoint's last documented " +
+			"conversion occasion yield, the cold value what the final objects yield, and the inputs changed afterwards by an event that " +
+			"gives the controller no occasion to convert again; then the key names that cause. Not asserted (counted): the endpoint " +
+			"index of services exported to nobody by the final objects, the per-endpoint push hint SendUnhealthyEndpoints. " +
+			"Plus hand-written directed orders, one per repair mechanism and one per recognised root cause (`kubereg repro <name>`). " +
+			"Non-trivial = the order exercises at least one measured hard shape and the final state has at least one service; " +
+			"distinct = distinct op sequence.",
 		Assumptions: []string{
 			"trusted base: client-go fake clientset/object tracker and shared informers deliver per-kind FIFO watch streams",
-			"trusted base: model.EndpointIndex driven exactly as DiscoveryServer.EDSUpdate/EDSCacheUpdate/SvcUpdate drive it",
-			"field selector status.phase!=Failed is not enforced by the fake API server: Failed pods stay visible to the controller",
+			"barrier: a sentinel of the op's kind through the same informer/handler/queue, observed at the far end (service label in GetService, EDSUpdate call for the sentinel hostname, ProxyUpdate for the sentinel pod address, sentinel node address among NetworkGateways, namespace annotation inherited by the sentinel service), then two service sentinels as queue markers; lost barrier => inconclusive",
+			"trusted base: model.EndpointIndex driven by model.FakeEndpointIndexUpdater, which makes exactly the EndpointIndex calls of DiscoveryServer.EDSUpdate/EDSCacheUpdate/SvcUpdate/RemoveShard/PruneShard (pilot/pkg/xds/eds.go); pushes never write to the index",
+			"the fake API server ignores field selectors: the pod watch status.phase!=Failed is reproduced by the harness (a pod turning Failed is delivered as a deletion, a Failed pod is never listed)",
 			"final cluster states are settled (the EndpointSlice controller has caught up with pods and services)",
+			"the cold start's informers deliver services and slices to the controller queue in scheduler-dependent order: the reference itself may show the service-event root cause (key suffix seen-in=cold-start)",
 			"ENABLE_PROXY_FIND_POD_BY_IP=true so that the pod-by-IP index is observable through GetProxyServiceTargets/GetProxyWorkloadLabels",
 		},
 		Anchors:       []string{"pilot/pkg/serviceregistry/kube/controller/"},
 		MinNontrivial: func(t string) int { return map[string]int{"quick": 40, "thorough": 1200}[t] },
-		Batches:       func(t string) int { return map[string]int{"quick": 5, "thorough": 8}[t] },
-		Parallel:      func(t string) int { return map[string]int{"quick": 5, "thorough": 8}[t] },
-		TimeoutSec:    func(t string) int { return map[string]int{"quick": 600, "thorough": 3000}[t] },
-		Env:           []string{"ENABLE_PROXY_FIND_POD_BY_IP=true"},
-		Run:           run,
+		Batches:       func(t string) int { return map[string]int{"quick": 5, "thorough": 16}[t] },
+		Parallel: func(t string) int {
+			if n, err := strconv.Atoi(os.Getenv("KUBEREG_PARALLEL")); err == nil && n > 0 { // development aid on a shared machine
+				return n
+			}
+			return map[string]int{"quick": 5, "thorough": 8}[t]
+		},
+		TimeoutSec: func(t string) int { return map[string]int{"quick": 600, "thorough": 3000}[t] },
+		Env:        []string{"ENABLE_PROXY_FIND_POD_BY_IP=true"},
+		Run:        run,
 	})
 }
 
@@ -87,6 +107,57 @@ func run(c *vh.Ctx) {
 			runHistory(c, hi, no)
 		}
 	}
+}
+
+var (
+	traitsOnce sync.Once
+	traitsVal  traits
+)
+
+// controllerTraits measures, once per process, which occasions to convert the controller under
+// test has (see traits in ledger.go): three tiny arrival orders against the real controller.
+func controllerTraits() traits {
+	traitsOnce.Do(func() {
+		probe := func(name string, build func(b *sb)) *snapshot {
+			b := &sb{final: map[objID]kruntime.Object{}}
+			build(b)
+			or := execOrder("probe-"+name, "probe", b.ops, b.final)
+			defer or.w.close()
+			if or.lost != "" {
+				return nil
+			}
+			return or.snap
+		}
+		svcKey := string(svcHost("svc", "ns-a")) + " ns-a"
+		if s := probe("replay", func(b *sb) {
+			base(b)
+			b.put(xSvc("svc", selA, nil), "service")
+			b.put(xSlice("svc-s1", "svc", 8080, epNotReady("10.0.0.1", "p1", "node-1")), "slice names p1, unknown")
+			b.put(xPod("p1", "10.0.0.1", "node-1", "sa-1", "running", lblA, 1), "p1 arrives not ready")
+		}); s != nil {
+			traitsVal.replayOnAnyArrival = len(s.Endpoints[svcKey]) > 0
+		}
+		if s := probe("relabel", func(b *sb) {
+			base(b)
+			b.put(xSvc("svc", selA, nil), "service")
+			b.put(xPod("p1", "10.0.0.1", "node-1", "sa-1", "running", map[string]string{"app": "a", "security.istio.io/tlsMode": "istio"}, 1), "p1 not ready")
+			b.put(xSlice("svc-s1", "svc", 8080, epNotReady("10.0.0.1", "p1", "node-1")), "slice")
+			b.put(xPod("p1", "10.0.0.1", "node-1", "sa-1", "running", map[string]string{"app": "a"}, 1), "p1 relabelled while not ready")
+		}); s != nil {
+			for _, e := range s.Endpoints[svcKey] {
+				traitsVal.relabelOutsideIndex = e["tlsMode"] == "disabled"
+			}
+		}
+		if s := probe("match", func(b *sb) {
+			base(b)
+			b.put(xSvc("svc", selA, nil), "service")
+			b.put(xPod("p1", "10.0.0.1", "node-1", "sa-1", "ready", lblA, 1), "p1 ready at .1")
+			b.put(xSlice("svc-s1", "svc", 8080, epReady("10.0.0.2", "p1", "node-1")), "slice names p1 at .2")
+		}); s != nil {
+			traitsVal.strictPodMatch = len(s.Endpoints[svcKey]) == 0
+		}
+	})
+	return traitsVal
 }
 
 func finalObjects(final map[objID]kruntime.Object) []kruntime.Object {
@@ -168,70 +239,16 @@ func describeFinal(ops []*op, final map[objID]kruntime.Object) []string {
 	return out
 }
 
-// qualifiers from the final objects (see quals).
-func svcQualifier(final map[objID]kruntime.Object, ops []*op) quals {
-	hidden := func(o kruntime.Object) bool {
-		for _, e := range strings.Split(o.(*corev1.Service).Annotations["networking.istio.io/exportTo"], ",") {
-			if strings.TrimSpace(e) == "~" {
-				return true
-			}
-		}
-		return false
-	}
-	wasHidden := map[objID]bool{}
-	for _, o := range ops {
-		if o.Obj.Kind == kService && o.Object != nil && hidden(o.Object) {
-			wasHidden[o.Obj] = true
-		}
-	}
-	return quals{
-		svc: func(k string) string {
-			hostNS := strings.SplitN(k, " ", 2)
-			p := strings.Split(hostNS[0], ".")
-			name, ns := p[0], ""
-			if len(p) > 1 {
-				ns = p[1]
-			}
-			o, ok := final[objID{kService, ns, name}]
-			switch {
-			case !ok:
-				return ":svc=absent"
-			case hidden(o):
-				return ":svc=exported-to-nobody"
-			case wasHidden[objID{kService, ns, name}]:
-				// while a service is exported to nobody its endpoints are not maintained; what
-				// it shows after becoming visible again is a failure of its own kind
-				return ":svc=was-exported-to-nobody"
-			}
-			return ""
-		},
-		pod: func(ns, name string) string {
-			o, ok := final[objID{kPod, ns, name}]
-			if !ok {
-				return "pod-absent"
-			}
-			p := o.(*corev1.Pod)
-			if p.Status.PodIP != "" && p.Status.Phase == corev1.PodRunning && p.DeletionTimestamp == nil {
-				for _, c := range p.Status.Conditions {
-					if c.Type == corev1.PodReady && c.Status == corev1.ConditionTrue {
-						return "pod-ready"
-					}
-				}
-			}
-			return "pod-not-ready"
-		},
-	}
-}
-
 // compare evaluates the oracle for one executed order. other (may be nil) is the true order of
 // the same history. It returns false when the case is inconclusive.
 func compare(c *vh.Ctx, or *orderRun, cw *world, other *orderRun, final map[objID]kruntime.Object, ops []*op, extra map[string]any) bool {
-	q := svcQualifier(final, ops)
+	x := newExplainer(or.order, final, cw)
+	hidden := finalHidden(final)
 	addrs := addressesOf(ops)
 	coldSnap := cw.snapshot(final, addrs)
-	diffs := diffSnap("live-vs-cold", or.snap, coldSnap, "live", "cold", q)
+	diffs := diffSnap("live-vs-cold", or.snap, coldSnap, "live", "cold", x, hidden)
 	rechecks := 0
-	if len(diffs) > 0 {
+	if asserted(diffs) > 0 {
 		// unequal: two more barrier rounds on both controllers, then look again
 		rechecks = 2
 		for i := 0; i < 2; i++ {
@@ -242,17 +259,21 @@ func compare(c *vh.Ctx, or *orderRun, cw *world, other *orderRun, final map[objI
 		}
 		or.snap = or.w.snapshot(final, addrs)
 		coldSnap = cw.snapshot(final, addrs)
-		diffs = diffSnap("live-vs-cold", or.snap, coldSnap, "live", "cold", q)
+		diffs = diffSnap("live-vs-cold", or.snap, coldSnap, "live", "cold", x, hidden)
 		c.Count("rechecks_after_extra_barrier_rounds", 1)
 	}
 	or.diffs = map[string]bool{}
 	for _, d := range diffs {
 		or.diffs[d.ID] = true
 	}
+	// the cold start itself against the membership the final objects define
+	refDiffs := diffReference(coldSnap, final, hidden)
+	c.Count("reference_membership_checks", 1)
+	diffs = append(diffs, refDiffs...)
 	if other != nil {
 		// two orders of one history against each other; what either already shows against
 		// the cold start is not reported twice
-		for _, d := range diffSnap("order-vs-order", or.snap, other.snap, "this-order", "true-order", q) {
+		for _, d := range diffSnap("order-vs-order", or.snap, other.snap, "this-order", "true-order", nil, hidden) {
 			if !or.diffs[d.ID] && !other.diffs[d.ID] {
 				diffs = append(diffs, d)
 			}
@@ -278,6 +299,7 @@ func compare(c *vh.Ctx, or *orderRun, cw *world, other *orderRun, final map[objI
 		c.Nontrivial(vh.Hash(or.w.name, ids))
 	}
 	c.SetAdd("tiers", or.tier)
+	c.SetAdd("controller_traits_measured", fmt.Sprintf("%+v", controllerTraits()))
 	sample := map[string]any{
 		"strategy": or.strat, "tier": or.tier, "ops": len(or.order), "replays": or.replays,
 		"shapes": sortedKeys(or.shapes), "final_services": ns, "final_endpoints": ne, "proxy_views": np,
@@ -287,17 +309,22 @@ func compare(c *vh.Ctx, or *orderRun, cw *world, other *orderRun, final map[objI
 		sample[k] = v
 	}
 	c.Sample(sample)
-	if len(diffs) == 0 {
-		return true
-	}
 	byKey := map[string][]string{}
 	var keys []string
 	for _, d := range diffs {
-		k := d.keyOf(or.tier)
-		if _, ok := byKey[k]; !ok {
-			keys = append(keys, k)
+		if d.Unasserted != "" {
+			c.Count(d.Unasserted, 1)
+			continue
 		}
-		byKey[k] = append(byKey[k], d.Detail)
+		if d.Explained {
+			c.Count("differences_with_recognised_root_cause", 1)
+		} else {
+			c.Count("differences_without_recognised_root_cause", 1)
+		}
+		if _, ok := byKey[d.Key]; !ok {
+			keys = append(keys, d.Key)
+		}
+		byKey[d.Key] = append(byKey[d.Key], d.Detail)
 	}
 	for _, k := range keys {
 		det := byKey[k]
@@ -314,10 +341,20 @@ func compare(c *vh.Ctx, or *orderRun, cw *world, other *orderRun, final map[objI
 		for kk, v := range extra {
 			payload[kk] = v
 		}
-		c.Violation(k, fmt.Sprintf("%s (strategy %s, %d ops, %d differences of this kind; still unequal after %d extra barrier rounds)",
-			det[0], or.strat, len(or.order), len(byKey[k]), rechecks), payload)
+		c.Violation(k, fmt.Sprintf("%s (strategy %s, tier %s, %d ops, %d differences of this kind; still unequal after %d extra barrier rounds)",
+			det[0], or.strat, or.tier, len(or.order), len(byKey[k]), rechecks), payload)
 	}
 	return true
+}
+
+func asserted(diffs []diffEntry) int {
+	n := 0
+	for _, d := range diffs {
+		if d.Unasserted == "" {
+			n++
+		}
+	}
+	return n
 }
 
 func account(c *vh.Ctx, or *orderRun) {
@@ -374,7 +411,7 @@ func runHistory(c *vh.Ctx, hi, no int) {
 			if or.lost == "" {
 				if cw := getCold(); coldErr == "" {
 					or.diffs = map[string]bool{}
-					for _, d := range diffSnap("live-vs-cold", or.snap, cw.snapshot(hist().Final, addressesOf(hist().Ops)), "live", "cold", svcQualifier(hist().Final, hist().Ops)) {
+					for _, d := range diffSnap("live-vs-cold", or.snap, cw.snapshot(hist().Final, addressesOf(hist().Ops)), "live", "cold", nil, finalHidden(hist().Final)) {
 						or.diffs[d.ID] = true
 					}
 				}
@@ -454,4 +491,80 @@ func runDirected(c *vh.Ctx, sc scenario) {
 		}
 		compare(c, or, cw, nil, b.final, b.ops, map[string]any{"directed": sc.name, "about": sc.about})
 	})
+}
+
+// runRepro: `kubereg repro [name...]` runs hand-written arrival orders (scenarios.go) against the
+// real controller and prints the minimal world, what istio derived and what the property demands.
+func runRepro(names []string) int {
+	for _, s := range istiolog.Scopes() {
+		s.SetOutputLevel(istiolog.NoneLevel)
+	}
+	if len(names) == 0 {
+		for _, sc := range directed {
+			fmt.Printf("%-55s %s\n", sc.name, sc.about)
+		}
+		return 0
+	}
+	rc := 0
+	for _, name := range names {
+		var sc *scenario
+		for i := range directed {
+			if directed[i].name == name || directed[i].name == "finding/"+name {
+				sc = &directed[i]
+			}
+		}
+		if sc == nil {
+			fmt.Printf("unknown scenario %q\n", name)
+			rc = 2
+			continue
+		}
+		b := &sb{final: map[objID]kruntime.Object{}}
+		sc.build(b)
+		fmt.Printf("== %s: %s\n", sc.name, sc.about)
+		fmt.Println("arrival order (each op is processed completely before the next is applied):")
+		for i, o := range b.ops {
+			fmt.Printf("  %2d %s %s [%s]\n", i, o.Verb, o.Obj, o.Note)
+		}
+		or := execOrder("repro-"+sc.name, "directed:"+sc.name, b.ops, b.final)
+		if or.lost != "" {
+			fmt.Println("inconclusive:", or.lost)
+			or.w.close()
+			rc = 3
+			continue
+		}
+		cw := newWorld("cold-"+sc.name, finalObjects(b.final))
+		if !cw.settle() || !cw.settle() {
+			fmt.Println("inconclusive: barrier lost in the cold-started controller")
+			or.w.close()
+			cw.close()
+			rc = 3
+			continue
+		}
+		live, cold := or.snap, cw.snapshot(b.final, addressesOf(b.ops))
+		for _, k := range unionKeys(live.Endpoints, cold.Endpoints) {
+			for _, ek := range unionKeys(live.Endpoints[k], cold.Endpoints[k]) {
+				fmt.Printf("  istio, lived through the order: [%s] [%s] %s\n", k, ek, renderMap(live.Endpoints[k][ek]))
+				fmt.Printf("  istio, cold start on final objs: [%s] [%s] %s\n", k, ek, renderMap(cold.Endpoints[k][ek]))
+			}
+			fmt.Printf("  shard service accounts: live=%q cold=%q\n", live.ShardSAs[k], cold.ShardSAs[k])
+		}
+		fmt.Printf("  network gateways: live=%q cold=%q\n", live.Misc["networkGateways"], cold.Misc["networkGateways"])
+		diffs := diffSnap("live-vs-cold", live, cold, "live", "cold", newExplainer(b.ops, b.final, cw), finalHidden(b.final))
+		diffs = append(diffs, diffReference(cold, b.final, finalHidden(b.final))...)
+		fmt.Println("the property demands: no difference between the two (state depends only on the final objects)")
+		if len(diffs) == 0 {
+			fmt.Println("  no difference")
+		}
+		for _, d := range diffs {
+			if d.Unasserted != "" {
+				fmt.Printf("  NOT ASSERTED (%s): %s\n", d.Unasserted, d.Detail)
+				continue
+			}
+			rc = 1
+			fmt.Printf("  DIFFERENCE key=%s\n      %s\n", strings.Join(strings.Fields(d.Key), "_"), d.Detail)
+		}
+		or.w.close()
+		cw.close()
+	}
+	return rc
 }
